@@ -74,12 +74,15 @@ class CancelOnShutdownExecutor(CanCustomizeBind, Executor):
         Note that there is no guarantee that the cancel will succeed, and only a single
         attempt is made to cancel any future.
         """
+        # Take the shutdown gate before our own lock, in the same order as
+        # submit() does, so that a racing submit() and shutdown() can't each
+        # hold one lock while waiting for the other.
+        if not self._shutdown():
+            return
+        metrics.EXEC_INPROGRESS.labels(
+            type="cancel_on_shutdown", executor=self._name
+        ).dec()
         with self._lock:
-            if not self._shutdown():
-                return
-            metrics.EXEC_INPROGRESS.labels(
-                type="cancel_on_shutdown", executor=self._name
-            ).dec()
             futures = self._futures.copy()
 
         for f in futures:
